@@ -8,7 +8,7 @@ from common import Driver, DriverFailure, hx
 LEVEL = "proof"
 MANIFEST = dict(
     text="Lean 4 theorems over ALL field values (Python ints as Int, arbitrary byte strings and lists), stated about the definitions regenerated from the source on every run. (1) a constructor returns exactly for the in-range values, everything else raises (inRange_iff_encodes, encode_rejects). (2) for every one of the 24 packet message forms the content the constructor produces is decoded, by every handler class meant for it, to exactly the fields it was built from (roundtrip: generic struct pack/unpack inversion over the format strings read from the source; statp_roundtrip; reminders_roundtrip with signed days; setwc_roundtrip; files_roundtrip for every shipped platform name and EVERY pair of version numbers). (3) hello round trip for every spa name incl. names containing '|' (hello_roundtrip) and the broadcast / client forms. (4) the one regex of _extract_packet_parts is modelled as a backtracking matcher (leftmost start, greedy/lazy groups read from the source): framing round-trips for ARBITRARY payload bytes and all '<'-free identifier pairs (frame_roundtrip), replies are addressed back with source and destination swapped (reply_swaps), sender-to-receiver composition for every form (wire_roundtrip). (5) the content of EVERY message the library builds is accepted by exactly the handler class(es) of its verb among the standard classes, each datagram by exactly the hello / packet handler, verbs pairwise prefix-free, no orphan verbs (claimed_by_exactly, orphan_none, datagram_claimed, verbs_prefix_free). (6) the model reproduces all 83 byte vectors of tests/test_protocol.py (pinned_encode / pinned_decode / pinned_claims, re-extracted every run). What the code did before the fixes of D2/D3/D4 is kept as theorems about the explicit old parameters (hello_name_with_bar_fails, frame_roundtrip_fails, frame_roundtrip_greedy, hello_roundtrip_split, old_watercare_claims_miss_setwc_wcreq); the search tries those inputs first on every run."
-         " Since session 3: every search message is also decoded on ONE long-lived instance per handler class in the roles where the library keeps an instance alive (hello, async partial update, the simulator's request handlers) and must give the fields it was built from; hello_history_independent proves it for the hello handler over the generated reset list (Model/HelloObject.lean). Session 4: a long-lived partial-update handler acknowledges two packets from one address that carry different identifier pairs: each acknowledgement must be addressed from the packet it answers. State inventory of the decoders (decoder_state_inventory over the regenerated skeletons of the packet, status-block and hello handlers).",
+         " Since session 3: every search message is also decoded on ONE long-lived instance per handler class in the roles where the library keeps an instance alive (hello, async partial update, the simulator's request handlers) and must give the fields it was built from; hello_history_independent proves it for the hello handler over the generated reset list (Model/HelloObject.lean). Session 4: a long-lived partial-update handler acknowledges two packets from one address that carry different identifier pairs: each acknowledgement must be addressed from the packet it answers. State inventory of the decoders (decoder_state_inventory over the regenerated skeletons of the packet, status-block and hello handlers). Every framed message also travels through the connection`s own receive path (real datagram_received, real packet consumer, real _async_on_packet) and must reach the verb consumers byte for byte.",
     note="Trusted: Lean kernel; harness/gen_c04.py (verbs, tags, struct formats per call site, can_handle verb lists, regex literals + greediness, hello split arity, literal payloads, platform names, test vectors: read from the source by ast; shapes outside the expected ones are refused); the hand-written slices / branch order / exception kinds of Model/Wire.lean and the backtracking reading of Python's re are tied to the code by a differential correspondence (real constructors' send_bytes, real handle(), every can_handle of every class, the real regex on an adversarial delimiter corpus, a malformed stream). latin-1 = identity on 0..255 is exercised, not proved. Layout oracle = the repository's own captured test vectors. int() inputs with signs/underscores/whitespace are out of model (skipped, counted). Identifiers are assumed free of '<'; STATP lists of the shape the 4-byte-record decoder reads; reminder types in GeckoReminderType; client identifiers start with IOS/AND.",
     technique="Lean 4 proofs by cases over an inductive message type + generic struct inversion + explicit backtracking-regex model; source-translated formats/verbs/regex shape; differential correspondence; encoder-decoder composition search on the real code",
     design="5/C04",
@@ -666,6 +666,42 @@ def parse_input(inp):
     return form, args, unhx(inp["p2"]), unhx(inp["p3"])
 
 
+def receive_path(dg, p2, p3):
+    """what the verb consumers of a connection find in the receive queue after the framed datagram `dg` (SRCCN p3, DESCN p2) arrived from
+    the spa's address: the REAL protocol object (datagram_received, queue), the REAL long-lived packet handler and the REAL
+    GeckoAsyncSpa._async_on_packet of a connection whose identifier pair is (p3, p2).  Returns the list of queued contents."""
+    import rig
+    import vloop
+    from geckolib.async_spa import GeckoAsyncSpa
+    from geckolib.async_tasks import AsyncTasks
+    from geckolib.driver import GeckoPacketProtocolHandler
+    from geckolib.driver.async_udp_protocol import GeckoAsyncUdpProtocol
+
+    async def body(loop):
+        async def ev(*a, **k):
+            pass
+        desc = rig.Desc(identifier=p3)
+        spa = GeckoAsyncSpa(p2, desc, AsyncTasks(), ev)
+        proto = GeckoAsyncUdpProtocol(None, desc.destination)
+        proto.connection_made(vloop.FakeTransport(loop, proto))
+        spa._protocol = proto
+        handler = GeckoPacketProtocolHandler(async_on_handled=spa._async_on_packet)
+        proto.datagram_received(dg, desc.destination)
+        out = []
+        for _ in range(4):
+            if proto.queue.head is None:
+                break
+            data, sender = proto.queue.head
+            proto.queue.pop()
+            if handler.can_handle(data, sender):
+                await handler.async_handle(data, sender)
+                await handler.async_handled(sender)
+            else:
+                out.append(data)
+        return out
+    return vloop.run_virtual(body)
+
+
 def oracle(form, args, p2, p3):
     """[(key, expected, observed)] : every way this in-range, in-domain message fails the property on the real code"""
     fails = []
@@ -694,6 +730,14 @@ def oracle(form, args, p2, p3):
                           {"src": hx(p3), "dst": hx(p2), "content": hx(content)},
                           canon_err(e) if e is not None else {"src": show_val(got[0]), "dst": show_val(got[1]), "content": show_val(got[2])}))
         else:
+            # 2b. the same through the connection's own receive path: the content reaches the verb consumers byte for byte
+            try:
+                q = receive_path(dg, p2, p3)
+            except Exception as e3:  # noqa
+                q = f"raised {type(e3).__name__}: {e3}"
+            if q != [content]:
+                fails.append((f"receive-path:{form}:{'raises' if isinstance(q, str) else ('lost' if not q else 'altered')}",
+                              [hx(content)], q if isinstance(q, str) else [show_val(x) for x in q]))
             # 3. a reply built from the received packet goes back to its sender, identifiers swapped
             try:
                 r = P().GeckoPacketProtocolHandler(content=b"APING\x00", parms=ph.parms).send_bytes
@@ -757,6 +801,9 @@ CANONICAL = [
     ("statusSegment", [3, 0, b"x</SRCCN><DESCN>y</DESCN><DATAS>z"], b"IOSclient", b"SPA01:02:03:04:05:06"),
     ("wcSet", [1, 2], b"IOSclient", b"SPA01:02:03:04:05:06"),
     ("wcGiveSchedule", [], b"SPA01:02:03:04:05:06", b"IOSclient"),
+    ("statusSegment", [3, 0, b"ab\n"], b"IOSclient", b"SPA01:02:03:04:05:06"),           # contents that END in a line ending
+    ("statusSegment", [0, 1, b"\r\n"], b"IOSclient", b"SPA01:02:03:04:05:06"),
+    ("statusSegment", [0, 0, b"x \t\x00"], b"IOSclient", b"SPA01:02:03:04:05:06"),
 ]
 
 
